@@ -164,6 +164,21 @@ theorem mem_positions_gt (ht : 0 < t) {fuel : ℕ} {idx p : ℚ}
     (hp : p ∈ (stepsIn 0 e fuel t idx).1) : idx < p := by
   have := (mem_positions ht hp).1; linarith
 
+/-- A, packaged: with `inc = 0`, `t > 0` and enough fuel (`n := cnt e t idx ≤ fuel`) -/
+theorem stepsIn_spec (ht : 0 < t) {fuel : ℕ} {idx : ℚ} (hf : cnt e t idx ≤ fuel) :
+    stepsIn 0 e fuel t idx =
+      ((List.range (cnt e t idx)).map (fun k : ℕ => idx + ((k : ℚ) + 1) * t),
+        idx + (cnt e t idx : ℚ) * t, false) ∧
+    (e ≤ idx → cnt e t idx = 0) ∧
+    (idx < e → 1 ≤ cnt e t idx ∧ e ≤ idx + (cnt e t idx : ℚ) * t ∧
+      idx + (cnt e t idx : ℚ) * t < e + t) ∧
+    (∀ k : ℕ, cnt e t idx ≤ k ↔ e ≤ idx + k * t) := by
+  refine ⟨?_, cnt_eq_zero ht, fun h => ⟨cnt_pos ht h, final_ge ht idx, final_lt ht h⟩,
+    cnt_least ht idx⟩
+  rw [stepsIn_const ht, Nat.min_eq_right hf]
+  simp only [Prod.mk.injEq, true_and]
+  simpa using hf
+
 /-! ## B. the invariant on `lastIndex` -/
 
 /-- `end_idx` exactly as computed in `AState.process` -/
@@ -979,12 +994,15 @@ theorem cex_all_degrees (deg : Degree) : fastStart deg (-17 : ℚ) < 0 := by
 theorem cex_second_call_aborts : isAbort (cexState2.finishIn [true] 100).2 = true := by
   decide +kernel
 
-/-- the count bound D also fails for a big jump: from `lastIndex = −109` (reachable at ratio 1/100,
-`Inv 8 100`) a call at ratio 1 with chunk 64 wants 163 frames, `output_frames_next() = 74` -/
-theorem cex_count : Inv 8 ⌈1 / (1/100 : ℚ)⌉ (-109) ∧ nC 64 8 1 (-109) = 163 ∧
-    outNextIn 64 (1 : ℚ) 1 = 74 ∧ (callIn 64 8 1 1 74 (-109)).2.2 = true := by
+/-- the count bound D also fails for a big jump: `lastIndex = −108` is reached after 11 calls at
+ratio 1/100 with chunk 64; from there a call at ratio 1 wants 162 frames while
+`output_frames_next() = 74`, so the loop runs out of room (unchecked write in `FastFixedIn`) -/
+theorem cex_count :
+    (runIn 8 (1/100) (List.replicate 11 64) (-4, 0, 0)).1 = -108 ∧
+    Inv 8 ⌈1 / (1/100 : ℚ)⌉ (-108) ∧ nC 64 8 1 (-108) = 162 ∧
+    outNextIn 64 (1 : ℚ) 1 = 74 ∧ (callIn 64 8 1 1 74 (-108)).2.2 = true := by
   have hT : ⌈1 / (1/100 : ℚ)⌉ = 100 := by decide +kernel
-  refine ⟨?_, by decide +kernel, by decide +kernel, by decide +kernel⟩
+  refine ⟨by decide +kernel, ?_, by decide +kernel, by decide +kernel, by decide +kernel⟩
   rw [hT]; unfold Inv; norm_num
 
 /-! ## H. non-vacuity -/
